@@ -928,4 +928,306 @@ theorem runIo_spec (c : Cfg) (k : K) (hl : k.led = {}) :
         | privFailed => dsimp only at hr ⊢; exact ⟨hgo, fin' _ _ _ hr⟩
         | daemonFailed => dsimp only at hr ⊢; exact ⟨hgo, fin' _ _ _ hr⟩
 
+/-! ## the violation counters never decrease; descriptors opened = descriptors closed -/
+
+theorem step_mono (L : Led) (e : Ev) :
+    L.dbl ≤ (step L e).dbl ∧ L.early ≤ (step L e).early ∧ L.misuse ≤ (step L e).misuse ∧
+    L.regbad ≤ (step L e).regbad := by
+  cases e <;> simp only [step, Led.use, Led.setSig] <;> (repeat' split) <;> simp <;> (try omega)
+
+theorem foldl_mono (tr : List Ev) : ∀ (L : Led),
+    L.dbl ≤ (tr.foldl step L).dbl ∧ L.early ≤ (tr.foldl step L).early ∧ L.misuse ≤ (tr.foldl step L).misuse ∧
+    L.regbad ≤ (tr.foldl step L).regbad := by
+  induction tr with
+  | nil => intro L; simp
+  | cons e tr ih =>
+    intro L
+    have h1 := step_mono L e
+    have h2 := ih (step L e)
+    simp only [List.foldl_cons]
+    omega
+
+/-- violation counters of a prefix are bounded by those of the whole trace -/
+theorem prefix_counters (pre post : List Ev) :
+    (ledOf pre).dbl ≤ (ledOf (pre ++ post)).dbl ∧ (ledOf pre).early ≤ (ledOf (pre ++ post)).early ∧
+    (ledOf pre).misuse ≤ (ledOf (pre ++ post)).misuse ∧ (ledOf pre).regbad ≤ (ledOf (pre ++ post)).regbad := by
+  have := foldl_mono post (ledOf pre)
+  simpa [ledOf, List.foldl_append] using this
+
+def opens (fd : Nat) (tr : List Ev) : Nat := (tr.filter (fun e => match e with | .socket _ (some x) => x = fd | _ => false)).length
+def closes (fd : Nat) (tr : List Ev) : Nat := (tr.filter (fun e => e = .close fd)).length
+
+def ind (fd : Nat) (l : List Nat) : Nat := if fd ∈ l then 1 else 0
+
+theorem counts_step (fd : Nat) (L : Led) (e : Ev) (hd : (step L e).dbl = L.dbl) (hm : (step L e).misuse = L.misuse) :
+    opens fd [e] + ind fd L.opn = closes fd [e] + ind fd (step L e).opn ∧
+    (L.opn.Nodup → (step L e).opn.Nodup) := by
+  cases e with
+  | socket f o =>
+    cases o with
+    | none => simp [opens, closes, step]
+    | some x =>
+      by_cases hx : x ∈ L.opn
+      · simp [step, hx] at hm
+      · by_cases hfd : x = fd
+        · subst hfd; simp [opens, closes, step, hx, ind]
+        · have : fd ≠ x := fun h => hfd h.symm
+          simp [opens, closes, step, hx, hfd, this, ind]
+  | close x =>
+    by_cases hx : x ∈ L.opn
+    · by_cases hfd : x = fd
+      · subst hfd
+        simp only [opens, closes, step, hx, ind, if_true]
+        refine ⟨?_, fun h => h.filter _⟩
+        simp
+      · have h2 : fd ≠ x := fun h => hfd h.symm
+        have h3 : Ev.close x ≠ Ev.close fd := by simp [hfd]
+        simp only [opens, closes, step, hx, ind, if_true]
+        refine ⟨?_, fun h => h.filter _⟩
+        simp [h3, List.mem_filter, h2]
+    · simp [step, hx] at hd
+  | _ => simp only [step, Led.use, Led.setSig] <;> (repeat' split) <;> simp [opens, closes] <;> (try rfl)
+
+theorem counts_foldl (fd : Nat) (tr : List Ev) : ∀ (L : Led), (tr.foldl step L).dbl = L.dbl →
+    (tr.foldl step L).misuse = L.misuse → L.opn.Nodup →
+    opens fd tr + ind fd L.opn = closes fd tr + ind fd (tr.foldl step L).opn ∧ (tr.foldl step L).opn.Nodup := by
+  induction tr with
+  | nil => intro L _ _ h; simp [opens, closes, h]
+  | cons e tr ih =>
+    intro L hd hm hN
+    simp only [List.foldl_cons] at hd hm ⊢
+    have m1 := step_mono L e
+    have m2 := foldl_mono tr (step L e)
+    have hd1 : (step L e).dbl = L.dbl := by omega
+    have hm1 : (step L e).misuse = L.misuse := by omega
+    obtain ⟨c1, c2⟩ := counts_step fd L e hd1 hm1
+    obtain ⟨i1, i2⟩ := ih (step L e) (by omega) (by omega) (c2 hN)
+    refine ⟨?_, i2⟩
+    have o : opens fd (e :: tr) = opens fd [e] + opens fd tr := by
+      show opens fd ([e] ++ tr) = _
+      unfold opens; rw [List.filter_append, List.length_append]
+    have c : closes fd (e :: tr) = closes fd [e] + closes fd tr := by
+      show closes fd ([e] ++ tr) = _
+      unfold closes; rw [List.filter_append, List.length_append]
+    omega
+
+/-- for a trace the ledger accepts (no double close, no misuse) that leaves nothing open:
+    every descriptor number is closed exactly as often as it was handed out -/
+theorem opens_eq_closes (tr : List Ev) (hd : (ledOf tr).dbl = 0) (hm : (ledOf tr).misuse = 0)
+    (ho : (ledOf tr).opn = []) (fd : Nat) : opens fd tr = closes fd tr := by
+  have := (counts_foldl fd tr {} (by simpa [ledOf] using hd) (by simpa [ledOf] using hm) (by simp)).1
+  have ho' : (tr.foldl step {}).opn = [] := ho
+  simp [ind, ho'] at this
+  exact this
+
+/-! ## the boot phase and the order of shutdown -/
+
+/-- the ledger when signal handlers are installed and the loop is up -/
+def bootLed : Led := { term := .handler, int := .handler, pipe := .ign, loopUp := true }
+
+theorem bootPhase_spec (c : Cfg) (k : K) (hl : k.led = {}) (acc : List (LSpec × Nat)) (okk : Bool) (k1 : K)
+    (hb : bootPhase c k = some (acc, okk, k1)) :
+    k.next ≤ k1.next ∧ k1.goAhead = k.goAhead ∧ AccOk acc k.next k1.next ∧
+    PeersAdded (bootLed.ups acc) k.next k1.next k1.led ∧
+    ∃ m, m ≤ (listeners c).length ∧ acc.map (·.1) = ((listeners c).take m).reverse ∧
+      (okk = true ↔ m = (listeners c).length) := by
+  unfold bootPhase at hb
+  have hs := registerSignals_spec k (by rw [hl])
+  generalize registerSignals k = r at hs hb
+  obtain ⟨bs, ks⟩ := r
+  dsimp only at hs hb
+  obtain ⟨hn, hg, hs⟩ := hs
+  cases bs
+  · simp at hb
+  · simp only [if_true] at hs
+    simp only [Bool.true_eq_false, if_false] at hb
+    obtain ⟨bi, ki, ei, hli, hni, hgi⟩ := sys_eq ks .init
+    rw [ei] at hb; dsimp only at hb
+    rw [hs, hl] at hli
+    cases bi
+    · simp at hb
+    · simp only [Bool.true_eq_false, if_false, Option.some.injEq] at hb
+      have hli' : ki.led = bootLed := by rw [hli]; simp [step, bootLed]
+      have hB : Below ki.led ki.next := by rw [hli']; constructor <;> simp [bootLed]
+      have := startAll_spec ki.led ki.next hB (by rw [hli']; rfl) (listeners c) ki [] (Nat.le_refl _)
+        ⟨by simp, by simp⟩ (PeersAdded.refl _ _ _)
+      unfold startPhase at hb
+      rw [hb] at this
+      dsimp only at this
+      obtain ⟨t1, t2, t3, t4, m, t5, t6, t7⟩ := this
+      rw [hli'] at t4
+      rw [hni, hn] at t1 t3 t4
+      exact ⟨t1, by rw [t2, hgi, hg], t3, t4, m, t5, by simpa using t6, t7⟩
+
+theorem runIo_of_boot_none (c : Cfg) (k : K) (hb : bootPhase c k = none) :
+    (runIo c k).1 = .signalFailed ∨ (runIo c k).1 = .initFailed := by
+  unfold bootPhase at hb
+  unfold runIo
+  dsimp only
+  split
+  · exact Or.inl rfl
+  · rename_i h1
+    rw [if_neg h1] at hb
+    split
+    · exact Or.inr rfl
+    · rename_i h2
+      rw [if_neg h2] at hb
+      simp at hb
+
+theorem runIo_of_boot_some (c : Cfg) (k : K) (acc : List (LSpec × Nat)) (okk : Bool) (k1 : K)
+    (hb : bootPhase c k = some (acc, okk, k1)) :
+    runIo c k =
+      if okk then (.servers (.jet (runJet c k1).1), unregisterSignals ((stopAll acc (runJet c k1).2).emit .destroy))
+      else (.servers (.startFailed acc.length), unregisterSignals ((stopAll acc k1).emit .destroy)) := by
+  unfold bootPhase at hb
+  unfold runIo runServers
+  dsimp only
+  split
+  · rename_i h1; rw [if_pos h1] at hb; simp at hb
+  · rename_i h1
+    rw [if_neg h1] at hb
+    split
+    · rename_i h2; rw [if_pos h2] at hb; simp at hb
+    · rename_i h2
+      rw [if_neg h2] at hb
+      simp only [Option.some.injEq] at hb
+      rw [hb]
+      cases okk <;> simp
+
+/-- what the fall-through chain of stop calls does, newest listener first -/
+def stopEvents : List (LSpec × Nat) → List Ev
+  | [] => []
+  | (l, fd) :: rest => [.remove fd, .close fd] ++ (if l = .uds then [.unlinkUds] else []) ++ stopEvents rest
+
+theorem stopAll_tr : ∀ (acc : List (LSpec × Nat)) (k : K), (stopAll acc k).tr = k.tr ++ stopEvents acc
+  | [], k => by simp [stopAll, stopEvents]
+  | (l, fd) :: rest, k => by
+    rw [stopAll, stopAll_tr rest, stopEvents]
+    unfold stopListener
+    split <;> simp [K.emit, *]
+
+theorem sys_eq_tr (k : K) (mk : Bool → Ev) : ∃ b k', k.sys mk = (b, k') ∧ k'.tr = k.tr ++ [mk b] :=
+  ⟨_, _, rfl, rfl⟩
+
+theorem dropPrivileges_tr (k : K) (h : (dropPrivileges k).1 = true) :
+    (dropPrivileges k).2.tr = k.tr ++ [.getpwnam true, .setgid true, .setuid true] := by
+  unfold dropPrivileges at h ⊢
+  obtain ⟨b1, k1, e1, t1⟩ := sys_eq_tr k .getpwnam
+  rw [e1] at h ⊢; dsimp only at h ⊢
+  cases b1
+  · simp at h
+  · simp only [Bool.true_eq_false, if_false] at h ⊢
+    obtain ⟨b2, k2, e2, t2⟩ := sys_eq_tr k1 .setgid
+    rw [e2] at h ⊢; dsimp only at h ⊢
+    cases b2
+    · simp at h
+    · simp only [Bool.true_eq_false, if_false] at h ⊢
+      obtain ⟨b3, k3, e3, t3⟩ := sys_eq_tr k2 .setuid
+      rw [e3] at h ⊢; dsimp only at h ⊢
+      subst h
+      rw [t3, t2, t1]; simp
+
+theorem runJet_tr (c : Cfg) (k : K) (b : Bool) (h : (runJet c k).1 = .ran b) :
+    ∃ mid : List Ev, (runJet c k).2.tr = k.tr ++ mid ++ [.run b, .destroyPeers, .destroyConns] ∧
+      ∀ e ∈ mid, e = .getpwnam true ∨ e = .setgid true ∨ e = .setuid true ∨ e = .daemon true := by
+  unfold runJet at h ⊢
+  have hp : ∃ bp kp, (if c.user = true then dropPrivileges k else (true, k)) = (bp, kp) ∧
+      (bp = true → ∃ m1, kp.tr = k.tr ++ m1 ∧ ∀ e ∈ m1, e = .getpwnam true ∨ e = .setgid true ∨ e = .setuid true) := by
+    cases c.user
+    · exact ⟨true, k, by simp, fun _ => ⟨[], by simp, by simp⟩⟩
+    · refine ⟨(dropPrivileges k).1, (dropPrivileges k).2, by simp, fun hb => ⟨_, dropPrivileges_tr k hb, by simp⟩⟩
+  obtain ⟨bp, kp, ep, hp⟩ := hp
+  rw [ep] at h ⊢; dsimp only at h ⊢
+  cases bp
+  · simp at h
+  · simp only [Bool.true_eq_false, if_false] at h ⊢
+    obtain ⟨m1, t1, q1⟩ := hp rfl
+    have hd : ∃ bd kd, (if c.foreground = true then (true, kp) else kp.sys .daemon) = (bd, kd) ∧
+        (bd = true → ∃ m2, kd.tr = kp.tr ++ m2 ∧ ∀ e ∈ m2, e = .daemon true) := by
+      cases c.foreground
+      · obtain ⟨b, k', e, t⟩ := sys_eq_tr kp .daemon
+        exact ⟨b, k', by simp [e], fun hb => ⟨_, t, by simp [hb]⟩⟩
+      · exact ⟨true, kp, by simp, fun _ => ⟨[], by simp, by simp⟩⟩
+    obtain ⟨bd, kd, ed, hd⟩ := hd
+    rw [ed] at h ⊢; dsimp only at h ⊢
+    cases bd
+    · simp at h
+    · simp only [Bool.true_eq_false, if_false] at h ⊢
+      obtain ⟨m2, t2, q2⟩ := hd rfl
+      obtain ⟨br, kr, er, tr⟩ := sys_eq_tr kd .run
+      rw [er] at h ⊢; dsimp only at h ⊢
+      simp only [JetEnd.ran.injEq] at h
+      subst h
+      refine ⟨m1 ++ m2, ?_, ?_⟩
+      · simp [K.emit, tr, t2, t1]
+      · intro e he
+        simp only [List.mem_append] at he
+        rcases he with he | he
+        · rcases q1 e he with h | h | h <;> simp [h]
+        · simp [q2 e he]
+
+theorem udsIn_listeners (c : Cfg) : udsIn (listeners c) = 1 := by
+  obtain ⟨l, u, f⟩ := c
+  cases l <;> rfl
+
+theorem udsIn_take (c : Cfg) (m : Nat) (h : m < (listeners c).length) : udsIn ((listeners c).take m) = 0 := by
+  obtain ⟨l, u, f⟩ := c
+  cases l
+  · have h' : m < 3 := h
+    have : m = 0 ∨ m = 1 ∨ m = 2 := by omega
+    rcases this with rfl | rfl | rfl <;> rfl
+  · have h' : m < 5 := h
+    have : m = 0 ∨ m = 1 ∨ m = 2 ∨ m = 3 ∨ m = 4 := by omega
+    rcases this with rfl | rfl | rfl | rfl | rfl <;> rfl
+
+theorem step_peers_nil (L : Led) (e : Ev) (hp : L.peers = []) (he : ∀ p k, e ≠ .peer p k) :
+    (step L e).peers = [] := by
+  cases e with
+  | peer p k => exact absurd rfl (he p k)
+  | socket f o => cases o <;> simp only [step] <;> (repeat' split) <;> simp [hp]
+  | _ => simp only [step, Led.use, Led.setSig] <;> (repeat' split) <;> simp [hp]
+
+theorem foldl_peers_nil (tr : List Ev) : ∀ (L : Led), L.peers = [] → (∀ e ∈ tr, ∀ p k, e ≠ .peer p k) →
+    (tr.foldl step L).peers = [] := by
+  induction tr with
+  | nil => intro L h _; exact h
+  | cons e tr ih =>
+    intro L h he
+    exact ih _ (step_peers_nil L e h (he e (List.mem_cons_self))) fun e' h' => he e' (List.mem_cons_of_mem _ h')
+
+theorem peers_nil_of_no_peer (tr : List Ev) (h : ∀ e ∈ tr, ∀ p k, e ≠ .peer p k) : (ledOf tr).peers = [] :=
+  foldl_peers_nil tr {} rfl h
+
+theorem peers_nil_of_noPeerAccepted (tr : List Ev) (h : noPeerAccepted tr = true) : (ledOf tr).peers = [] := by
+  apply peers_nil_of_no_peer
+  intro e he p k hek
+  subst hek
+  simp only [noPeerAccepted, List.all_eq_true] at h
+  have := h _ he
+  simp at this
+
+theorem ups_rest (L : Led) : ∀ acc, (L.ups acc).term = L.term ∧ (L.ups acc).int = L.int ∧ (L.ups acc).pipe = L.pipe ∧
+    (L.ups acc).ai = L.ai ∧ (L.ups acc).unlinks = L.unlinks ∧ (L.ups acc).dbl = L.dbl ∧
+    (L.ups acc).early = L.early ∧ (L.ups acc).misuse = L.misuse ∧ (L.ups acc).regbad = L.regbad
+  | [] => by simp [Led.ups]
+  | (l, fd) :: rest => by
+    have := ups_rest L rest
+    simpa [Led.ups, Led.up, Led.withSock, Led.withReg] using this
+
+/-! ## predicates used by the property statements -/
+
+/-- signal dispositions at return: restored, or — the one path where the code does not restore them —
+    `signal(SIGPIPE, SIG_IGN)` failed after both handlers were installed (linux_io.c:547-550) -/
+def SignalsAsCoded (e : IoEnd) (tr : List Ev) (L : Led) : Prop :=
+  (L.term = .dfl ∧ L.int = .dfl) ∨
+  (e = .signalFailed ∧ Ev.signal .pipe .ign false ∈ tr ∧ L.term = .handler ∧ L.int = .handler)
+
+/-- everything that belongs to listeners is released and the monitor saw no violation -/
+def ListenersReleased (L : Led) : Prop :=
+  L.opn = [] ∧ L.bnd = [] ∧ L.lis = [] ∧ L.reg = [] ∧ L.ai = 0 ∧ L.loopUp = false ∧
+  L.dbl = 0 ∧ L.early = 0 ∧ L.misuse = 0 ∧ L.regbad = 0
+
+theorem finalLed_released (ps : List (Nat × Kind)) (u : Nat) : ListenersReleased (finalLed ps u) := by
+  simp [ListenersReleased, finalLed]
+
 end Cjet.Startup
